@@ -147,6 +147,9 @@ deriving DecidableEq, Repr, Inhabited
 
 inductive VmErr
   | ok | vm | system | negfee
+  /-- a Lua runtime error raised after the contract wrote top-level variables: the writes sit in the
+      contract-state handle, nothing undoes them inside the VM -/
+  | vmlate
 deriving DecidableEq, Repr, Inhabited
 
 /-- scripted outcome of a VM call (overlay/stub/vmstub.go `VerifScript`) -/
@@ -169,6 +172,7 @@ deriving DecidableEq, Repr, Inhabited
 
 structure Tx where
   type : TxType
+  /-- the account the tx executes as: `name.Resolve` of the account field of the tx body -/
   sender : Addr
   recipient : Option Addr
   amount : Nat
@@ -179,6 +183,9 @@ structure Tx where
   gov : GovOp := .bad
   /-- `contract.CreateContractID(account, nonce)` (a SHA-256 value: supplied, never computed) -/
   newAddr : Addr := 0
+  /-- the account field of the tx body is a *name* (≤ 12 bytes; 0 = "aergo.name") rather than an address;
+      `sender` is what it resolves to. Only `ValidateNameTx` looks at the raw field. -/
+  acctName : Option Nat := none
 deriving Repr, Inhabited
 
 /-- classes of errors that make `executeTx` return an error (the tx is rolled back) -/
@@ -419,6 +426,13 @@ def vmCall (w : World) (tx : Tx) (snd rcv : Copy) (isFD : Bool) (base : Nat) : E
       | .fail dirty => { snd, rcv, w, fee := base + tx.script.fee, err := some .runtime, dirty }
       | .ok _ _ _ _ => { snd, rcv, w, fee := base + tx.script.fee, err := some (.reject .system) }
     | .vm => { snd, rcv, w, fee := base + tx.script.fee, err := some .runtime }
+    | .vmlate =>
+      -- the storage writes were made through the handle `OpenContractState` gave out: if the contract was
+      -- staged earlier in the block that handle IS the block's cached storage and the writes stay although
+      -- the tx ends with an ERROR receipt (known finding `toplevel-vm-error-keeps-staged-storage-writes`)
+      let pend := { pend with sets := tx.script.sets, dels := tx.script.dels }
+      let wl := if w.cached.contains rcv.id then w.write rcv.id pend else w
+      { snd, rcv, w := wl, fee := base + tx.script.fee, err := some .runtime, leak := decide (wl ≠ w) }
     | .ok =>
       match runXfers snd.id rcv.id snd.cur rcv.cur w false tx.script.xfers with
       | .fail dirty => { snd, rcv, w, fee := base + tx.script.fee, err := some .runtime, dirty }
@@ -532,8 +546,10 @@ def validateName (c : Ctx) (w : World) (tx : Tx) (snd : Copy) : Option Rej :=
     if c.namePrice > tx.amount then some .tooSmall
     else if (w.ownerOf n).isSome then some .other else none
   | .nameUpdate n _ =>
+    -- `tx.Account` (the raw field) must be the name itself or the bytes of its owner's address
     if c.namePrice > tx.amount then some .tooSmall
-    else if w.ownerOf n ≠ some snd.id then some .other else none
+    else if tx.acctName = some n then none
+    else if tx.acctName = none ∧ w.ownerOf n = some snd.id then none else some .other
   | .setOwner _ => if (w.ownerOf nAergoName).isSome then some .other else none
   | _ => some .other
 
